@@ -67,6 +67,7 @@ def global_write_obligations(repo):
             out.append(('module-state.' + s.name, False, 'module level state written in a function at line %d' % s.line))
     out.append(('module-state.checked', True, ''))
     out.extend(frame.module_state(repo))
+    out.extend(frame.mutable_defaults(repo))
     return out
 
 
